@@ -97,8 +97,10 @@ class Renumber:
     """Proxy that files another property's obligations under this property's clause numbers; clauses listed in `drop` are the
     other property's own and are not filed here."""
 
-    def __init__(self, ctx, table, drop=()):
-        self._ctx, self._t, self._drop = ctx, table, set(drop)
+    def __init__(self, ctx, table, drop=(), only=None):
+        """only(what, fn) -> bool: file an obligation here only if it concerns this property (e.g. only the rules about one column, or
+        about one module); the others are evaluated but belong to the property they come from"""
+        self._ctx, self._t, self._drop, self._only = ctx, table, set(drop), only
 
     def __getattr__(self, k):
         return getattr(self._ctx, k)
@@ -106,7 +108,17 @@ class Renumber:
     def ob(self, num, *a, **kw):
         if num in self._drop:
             return bool(a[2]) if len(a) > 2 else True
+        if self._only is not None:
+            what = a[1] if len(a) > 1 else kw.get("what", "")
+            fn = a[3] if len(a) > 3 else kw.get("fn")
+            if not self._only(what, fn):
+                return bool(a[2]) if len(a) > 2 else True
         return self._ctx.ob(self._t.get(num, num), *a, **kw)
+
+    def count_min(self, label, found, minimum):
+        if self._only is not None:
+            return   # the anchors of filtered rules are the other property's
+        return self._ctx.count_min(label, found, minimum)
 
 
 def pos(f: Func, n: ast.AST) -> int:
